@@ -925,8 +925,8 @@ func blockedGoroutines() string {
 	for _, g := range strings.Split(string(buf[:n]), "\n\n") {
 		if strings.Contains(g, "olareg/internal/") || strings.Contains(g, "olareg.(*Server)") {
 			lines := strings.Split(g, "\n")
-			if len(lines) > 14 {
-				lines = lines[:14]
+			if len(lines) > 26 {
+				lines = lines[:26]
 			}
 			out = append(out, strings.Join(lines, "\n"))
 		}
